@@ -20,17 +20,19 @@ ASSUMPTIONS = ["autoescape is off in this fragment; the loopcontrols extension p
 CLAIM = dict(
     category="proof",
     technique="Lean 4 proofs about a reference interpreter for statements and scoping (assignments never leak out of a scope, outer "
-              "scopes are never modified by inner statements, alpha-renaming of expression names, generated-identifier injectivity) + "
+              "scopes are never modified by inner statements, generated-identifier injectivity) + "
               "differential rendering of generated statement trees against the interpreter and after consistent renaming",
-    text="Theorems (Props/C03.lean): run_preserves_outer — executing any statement list changes only the innermost scope (and "
-         "namespace cells): every enclosing scope's variables and macros are exactly what they were, for every program, context and "
-         "fuel; scoped_no_leak — for, with, filter block, block set, macro call and call block leave even the innermost scope's "
-         "variables unchanged except for the documented binding (block set); if_shares_scope; lookup_innermost_first; "
-         "ident_injective — the generated Python identifier of (scope depth, name) determines both for Python-identifier names. "
-         "Tie: random statement trees (size <= 28 quick / <= 60 thorough) over a pool of 4 variable names, 2 macros, 1 namespace so "
-         "that shadowing, conditional assignment, read-before-write and closure capture are frequent, each rendered on 3 data "
-         "assignments against the interpreter (output text or exception class), and re-rendered after consistent renaming to "
-         "other ASCII, keyword-like and NFKC-stable Unicode identifiers.",
+    text="Theorems (Props/C03.lean), for every program, context, state and fuel of the reference interpreter: run_preserves_outer "
+         "— executing any statement list changes at most the innermost scope, every enclosing scope (variables, macros, caller) "
+         "is exactly what it was and no scope is added or removed; scoped_no_leak — a for loop (with filter and else), with, "
+         "filter block, macro call, call block and caller() leave ALL scopes exactly as they were (nothing assigned inside is "
+         "visible afterwards); inScope_frames / forLoop_frames / callMacroWith_frames (the same for any sub-interpreter); "
+         "set_block_binds_only_name; if_shares_scope — the chosen branch runs directly in the current scope; "
+         "lookup_innermost_first / lookup_falls_through; ident_injective_name — within a scope distinct names get distinct "
+         "generated identifiers. Tie: random statement trees (size <= 28 quick / <= 60 thorough) over a pool of 4 variable "
+         "names, 2 macros, 1 namespace so that shadowing, conditional assignment, read-before-write and closure capture are "
+         "frequent, each rendered on 3 data assignments against the interpreter (output text or exception class), and "
+         "re-rendered after consistent renaming to other ASCII, keyword-like and NFKC-stable Unicode identifiers.",
     note="Trusted: Lean kernel; reference interpreter by correspondence; alpha-invariance of whole programs is checked by re-rendering "
          "(the theorem covers lookups). Known findings: a nested scope reading a name that an ENCLOSING scope assigns later sees "
          "undefined instead of the context value; identifiers that differ only by NFKC normalisation alias.",
@@ -120,6 +122,26 @@ class G:
         self.budget -= 1
         k = r.random()
         leaf = depth <= 0
+        if not leaf and r.random() < 0.05:
+            # read-then-write of one name several scopes below the scope that binds it (or the context), the scopes in
+            # between not touching it
+            v = self.var()
+            core_ = [[A("out"), n(v)], [A("set"), v, [A("cat"), n(v), cs("'")]], [A("out"), n(v)]]
+            for _ in range(r.randrange(1, 4)):
+                other = self.pick([x for x in VARS if x != v])
+                kind = self.pick(["for", "with", "setblock", "filterblock", "if"])
+                if kind == "for":
+                    core_ = [[A("for"), other, [A("list"), c(1), c(2)], A("_"), core_, []]]
+                elif kind == "with":
+                    core_ = [[A("with"), [[other, c(r.randrange(0, 5))]], core_]]
+                elif kind == "setblock":
+                    core_ = [[A("setblock"), other, core_], [A("out"), n(other)]]
+                elif kind == "filterblock":
+                    core_ = [[A("filterblock"), "upper", core_]]
+                else:
+                    core_ = [[A("if"), [[c(True), core_]], []]]
+            pre = [[A("set"), v, cs(self.pick(["o", "k"]))]] if r.random() < 0.6 else []
+            return [A("if"), [[c(True), pre + core_ + [[A("out"), n(v)]]]], []]
         if k < 0.22 or leaf and k < 0.5:
             return [A("out"), self.val()]
         if k < 0.27:
